@@ -585,6 +585,22 @@ class _ScopeVisitor(_ExpressionVisitor):
             if pyname is not None:
                 self.names[name] = pyname
 
+    def _MatchAs(self, node):
+        if node.name is not None:
+            self._assigned(node.name, None)
+        if node.pattern is not None:
+            self.visit(node.pattern)
+
+    def _MatchStar(self, node):
+        if node.name is not None:
+            self._assigned(node.name, None)
+
+    def _MatchMapping(self, node):
+        if node.rest is not None:
+            self._assigned(node.rest, None)
+        for child in ast.iter_child_nodes(node):
+            self.visit(child)
+
 
 class _ComprehensionVisitor(_ScopeVisitor):
     def _comprehension(self, node):
